@@ -357,7 +357,8 @@ func scnRun(rec *evid.Rec, cfg scnCfg, faults map[int]sim.FaultKind) *scnResult 
 	res.Milestones = scnScript(w, cfg, stop)
 	scriptDone = true
 	res.Calls = n
-	w.C.RestartControllers()
+	// no controller restart here: a process that was stopped has already been replaced (sim.Reconcile does that);
+	// after a merely rejected or unanswered call the same instances carry on, in-memory state included
 	res.SettleN = scnSettle(w, stop)
 	res.Final = canon(w)
 	res.Trace = w.C.Trace
